@@ -9,7 +9,10 @@ spec -> code, four specifications, every record replayed by harness/cmd/c17:
                    gomatrixserverlib.SplitID (one pass per parser).
   Base64_gen.tla   unpadded base64 in both alphabets over byte strings hitting sextets 62 / 63.
   Limits.tla       255 code points / 255 bytes / 65 536 bytes on receipt (content hash matching or not: the
-                   redacted survivor is judged the same way), on build and in CheckFields.
+                   redacted survivor is judged the same way), on build and in CheckFields; family "place": the
+                   same totals 65 535 / 65 536 / 65 537 with the bulk of the bytes in content, in unsigned, in
+                   both, in type / state key at their limits, in prev_events, in auth_events, in the signatures
+                   of many servers, CheckFields also after SetUnsigned / Sign and on headered JSON.
   VersionTable.tla the 16 x 12 trait matrix: getters and one behavioural probe per function-valued entry.
 """
 
@@ -33,6 +36,10 @@ def run(ctx):
         "events are hashed and signed with a real ed25519 key (EventBuilder.Build and an independent hash-and-sign); "
         "signature verification itself is not part of this property",
         "key-validity probes keep margins of hours / days to the real clock",
+        "on receipt the event that is judged is the received JSON without its unsigned member (the receiver drops "
+        "it, with age_ts / outlier / destinations, before there is an event); a received JSON that is over 65 536 "
+        "bytes only with that member may be accepted or refused (never reported persistable), and what is accepted "
+        "has at most 65 536 bytes of JSON",
     ]
     ctx.notes["rule"] = (
         "Ident: every string the speller of Ident.tla reaches (free: all sequences of <= %d atoms over 19 character "
@@ -41,7 +48,10 @@ def run(ctx):
         "Base64: all byte strings of <= 3 bytes over the %s byte alphabet x spelling variants; "
         "Limits: field x shape (code points / bytes at, below, above 255; 1-, 2-, 4-byte characters) x path x version "
         "x content hash on receipt (match / mismatch re-parsed after redaction / mismatch unchanged by redaction), "
-        "JSON sizes 65535/65536/65537, and every pair of excesses (field, byte-only | code points) on two of type / state key / sender / room ID / event size; "
+        "JSON sizes 65535/65536/65537, the same sizes x where the bulk of the bytes is (content, unsigned, half each, "
+        "40 bytes of unsigned at the boundary of the total and of the event proper, type + state key at 255, prev_events, "
+        "auth_events, signatures of many servers) x path (receipt, Build with ProtoEvent.Unsigned / EventBuilder.SetUnsigned, "
+        "CheckFields on trusted / headered JSON, after SetUnsigned, after Sign), and every pair of excesses (field, byte-only | code points) on two of type / state key / sender / room ID / event size; "
         "VersionTable: 16 versions x (getters + 44 probes). "
         "distinct = distinct (parser, grammar description, verdict) / (variant, length, alphabet) / "
         "(family, path, version class, shape class, verdict) / (probe, outcome) classes"
@@ -50,7 +60,7 @@ def run(ctx):
     jobs = [("Ident_gen", "Ident_gen_free_%s.cfg" % t, "ident"), ("Ident_gen", "Ident_gen_struct_%s.cfg" % t, "ident"),
             ("Base64_gen", "Base64_gen_%s.cfg" % t, "b64"),
             ("Limits_gen", "Limits_gen_single_%s.cfg" % t, "limits"), ("Limits_gen", "Limits_gen_pair_%s.cfg" % t, "limits"),
-            ("Limits_gen", "Limits_gen_create_%s.cfg" % t, "limits"),
+            ("Limits_gen", "Limits_gen_create_%s.cfg" % t, "limits"), ("Limits_gen", "Limits_gen_place_%s.cfg" % t, "limits"),
             ("VersionTable_gen", "VersionTable_gen_%s.cfg" % t, "table")]
     if t == "quick":
         # quick: the full single-field and pair families run for one version per untrusted constructor (1, 10, 12;
@@ -66,18 +76,23 @@ def run(ctx):
             ctx.replay_and_compare(cmd, records, pkg="c17")
 
     if t == "quick":
-        # the generators are independent: run TLC on all of them at once (wall time), then replay in order
+        # the generators are independent: run TLC on all of them at once (wall time) and replay, in a fixed order
+        # (the short generators first), each as soon as it is there - while the long ones are still running
+        jobs.sort(key=lambda j: 0 if j[2] in ("limits", "table") else 1 if j[2] == "b64" else 2)
         ctx._spec_dir()
         ctx.harness_build(pkg="c17")
         with concurrent.futures.ThreadPoolExecutor(max_workers=len(jobs)) as ex:
             futs = [ex.submit(ctx.tlc, m, cfg, 4, 600) for m, cfg, _ in jobs]
-            results = [f.result() for f in futs]
+            results = []
+            for (m, cfg, cmd), f in zip(jobs, futs):
+                r = f.result()
+                results.append((r.distinct, r.generated))
+                replay(cmd, r.records)
+                del r
         # the counters were updated from several threads: restate them from the results
-        ctx.states = sum(r.distinct for r in results)
-        ctx.transitions = sum(r.generated for r in results)
+        ctx.states = sum(d for d, _ in results)
+        ctx.transitions = sum(g for _, g in results)
         ctx.tlc_runs.sort(key=lambda x: (x["module"], x["cfg"]))
-        for (m, cfg, cmd), r in zip(jobs, results):
-            replay(cmd, r.records)
     else:
         for m, cfg, cmd in jobs:
             r = ctx.tlc(m, cfg, timeout=1500)
